@@ -3,7 +3,7 @@ import importlib
 import json
 import os
 
-MODULES = ['m_block_tokenizer', 'm_block_token', 'm_span_tokenizer']
+MODULES = ['m_block_tokenizer', 'm_block_token', 'm_span_tokenizer', 'm_core_tokens']
 LEMMA_MODULES = []          # modules exporting LEMMAS = {key: (fn, [props])}
 
 _model = None
